@@ -827,7 +827,21 @@ func (cx *c41Ctx) runCase(idx int) {
 		for f := range sched {
 			sched[f] = c41Delivery{si, f}
 		}
-		out, miss := cx.receive(c.Streams[si:si+1], c41Rebase(sched, si), rx, nil)
+		// The worker's periodic clean-up may run between any two frames of a
+		// stream that keeps receiving frames (never twice without a frame in
+		// between: two ticks without traffic legitimately expire a parked fragment).
+		var ticks map[int]int
+		if rx == "direct" && rng.IntN(2) == 0 {
+			ticks = map[int]int{}
+			dens := 1 + rng.IntN(3)
+			for f := range sched {
+				if rng.IntN(dens) == 0 {
+					ticks[f] = 1
+				}
+			}
+			r.Event("lossless_with_cleanup_ticks")
+		}
+		out, miss := cx.receive(c.Streams[si:si+1], c41Rebase(sched, si), rx, ticks)
 		if miss > 0 {
 			r.Inconclusive("frame buffer pool empty")
 			continue
@@ -1085,7 +1099,7 @@ func checkC41(r *mon.Run) {
 		return
 	}
 	r.Require(int64(total)*4, 150,
-		"lossless_stream", "fault_run", "tx_valid_packet_accepted", "tx_invalid_packet_offered", "tx_ring_full_drop", "tx_ring_full_retry",
+		"lossless_stream", "lossless_with_cleanup_ticks", "fault_run", "tx_valid_packet_accepted", "tx_invalid_packet_offered", "tx_ring_full_drop", "tx_ring_full_retry",
 		"rx_lossless_packet_exact", "rx_lossless_packet_reassembled_from_several_frames",
 		"fault_frame_dropped", "fault_frame_duplicated", "fault_frame_displaced", "fault_worker_cleanup",
 		"rx_fault_packet_intact", "rx_fault_packet_not_delivered", "rx_fault_packet_delivered_again")
